@@ -210,3 +210,54 @@ func VerifH_MuxGroupSerial() {
 	}
 	symx.Reach("end")
 }
+
+// C15/H3: a saturated worker. One worker with a queue of depth 1: an update of k1 is held inside its store
+// callback (the worker is busy), a load of k2 fills the queue, then a get of k1 arrives while the gate
+// opens - every interleaving. Whatever the saturated get answers (a value or an error), operations on k1
+// reach the store one at a time (race monitor) and the cache is coherent with the store at quiescence.
+func VerifH_MuxSaturated() {
+	s := newVerifStore()
+	g := NewWorkGrp(verifNewCache, WithSize(1), WithDeep(1))
+	g.Start()
+	k1, k2 := verifHK(0), verifHK(1)
+	s.has[0], s.val[0] = true, 7
+	s.has[1], s.val[1] = true, 70
+	ctx := context.Background()
+	gate := make(chan struct{})
+	inUpdate := false
+	upd := func(c context.Context, d interface{}, e interface{}) (interface{}, error) {
+		inUpdate = true
+		<-gate
+		return s.upd(0)(c, d, e)
+	}
+	var rA, rB, rC interface{}
+	var eA, eB, eC error
+	tA := symx.Go("updater", func() { rA, eA = g.DoUpdate(ctx, s.load(0), upd, k1, 8) })
+	symx.WaitQuiescent()
+	symx.Assume(inUpdate) // (the update's preceding load may fail by injected fault: then nothing keeps the worker busy)
+	symx.Assert(symx.Blocked(tA), "the update is being applied: the worker is busy")
+	tC := symx.Go("filler", func() { rC, eC = g.DoGet(ctx, s.load(1), k2) })
+	symx.WaitQuiescent()
+	symx.Assert(symx.Blocked(tC), "the second operation waits in the queue")
+	tB := symx.Go("getter", func() { rB, eB = g.DoGet(ctx, s.load(0), k1) })
+	close(gate)
+	symx.WaitQuiescent()
+	symx.MustFinish(tA, "the updater gets its result")
+	symx.MustFinish(tB, "the getter returns")
+	symx.MustFinish(tC, "the queued load completes")
+	if eA == nil {
+		symx.Assert(rA.(int) == 8, "the updater receives the result of its own call")
+	}
+	if eB == nil {
+		v := rB.(int)
+		symx.Assert(v == 7 || v == 8, "a returned value is one the store held for the key")
+	}
+	if eC == nil {
+		symx.Assert(rC.(int) == 70, "the other key's value")
+	}
+	for _, wk := range g.ws {
+		verifCoherent(wk.ca, s, 0, "at quiescence")
+		verifCoherent(wk.ca, s, 1, "at quiescence")
+	}
+	symx.Reach("end")
+}
